@@ -62,11 +62,12 @@ def solve2DBox (alphai alphaj gi gj Qii Qij Qjj Li Ui Lj Uj : α) : α × α :=
     let s1 : α × α := (solveEdge alphai (gi - Qij * (Lj - alphaj)) Qii Li Ui, Lj)
     let s2 : α × α := (Ui, solveEdge alphaj (gj - Qij * (Ui - alphai)) Qjj Lj Uj)
     let s3 : α × α := (solveEdge alphai (gi - Qij * (Uj - alphaj)) Qii Li Ui, Uj)
-    -- `maxGain = 0; maxIndex = 0; for k: if (gain > maxGain) …`
+    -- `maxGain = 0; maxIndex = 0; for k: if (gain > maxGain) {maxIndex = k; maxGain = gain;}`
     let pick (best : (α × α) × α) (s : α × α) : (α × α) × α :=
       let g := gain2D gi gj Qii Qij Qjj (s.1 - alphai) (s.2 - alphaj)
       if g > best.2 then (s, g) else best
-    (pick (pick (pick (pick (s0, (0.0 : α)) s0) s1) s2) s3).1
+    -- `if(maxGain > 0)` move to the best edge, else keep the current point
+    (pick (pick (pick (pick ((alphai, alphaj), (0.0 : α)) s0) s1) s2) s3).1
 
 /-! ### the decomposition state -/
 
